@@ -700,6 +700,11 @@ fn model(problem: &Value, matrices: &[Value]) -> Option<BTreeSet<String>> {
     }
     // ---- relations
     if let Some(relations) = problem.pointer("/plan/relations").and_then(|r| r.as_array()) {
+        // a plan job carrying a reserved id which a relation names as well: job or marker? not pinned down
+        let reserved_plan_ids: Vec<&str> = jobs.iter().filter_map(|j| j["id"].as_str()).filter(|id| is_reserved(id)).collect();
+        if relations.iter().any(|r| r["jobs"].as_array().is_some_and(|a| a.iter().any(|j| j.as_str().is_some_and(|j| reserved_plan_ids.contains(&j))))) {
+            return None;
+        }
         let job_by_id: HashMap<&str, &Value> = jobs.iter().map(|j| (j["id"].as_str().unwrap_or(""), j)).collect();
         let mut vehicle_of_job: HashMap<&str, &str> = HashMap::new();
         for rel in relations {
@@ -981,7 +986,18 @@ fn judge(base: usize, edits: &[&Edit], report: &mut Report) {
             } else if let Some(ed) = edits.iter().find(|ed| panics_there(&[**ed])) {
                 vec![class(&ed.name)]
             } else {
-                let mut c: Vec<String> = edits.iter().map(|e| class(&e.name)).collect();
+                let mut pair = None;
+                if edits.len() > 2 {
+                    'outer: for i in 0..edits.len() {
+                        for j in i + 1..edits.len() {
+                            if panics_there(&[edits[i], edits[j]]) {
+                                pair = Some(vec![class(&edits[i].name), class(&edits[j].name)]);
+                                break 'outer;
+                            }
+                        }
+                    }
+                }
+                let mut c: Vec<String> = pair.unwrap_or_else(|| edits.iter().map(|e| class(&e.name)).collect());
                 c.sort();
                 c
             };
@@ -1045,8 +1061,8 @@ fn combos(ctx: &RunCtx, n: usize) -> Vec<Vec<usize>> {
         }
     }
     if !ctx.tier.is_quick() {
-        // triples over the exact edits of a thinned index set would explode: triples of every 3rd edit
-        let idx: Vec<usize> = (0..n).step_by(3).collect();
+        // every triple of edits
+        let idx: Vec<usize> = (0..n).collect();
         for a in 0..idx.len() {
             for b in a + 1..idx.len() {
                 for c in b + 1..idx.len() {
@@ -1090,7 +1106,7 @@ pub fn run(ctx: &RunCtx) -> Report {
     report.set(
         "rule",
         "2 valid base documents (coordinates, no matrix / indices + matrix + objectives + resources + two shifts) x every single edit and every pair of edits of \
-         the catalogue (thorough: + all triples of every third edit); each document read by the real reader under catch_unwind; never a panic, only documented \
+         the catalogue (thorough: + every triple of edits); each document read by the real reader under catch_unwind; never a panic, only documented \
          codes; documents made of 'exact' edits only: accepted <=> the rule model written from the error index finds nothing, reported codes == model codes",
     );
     report.assume("the rule model declines (undecided) where the documentation is silent: equal start/end, touching windows, partially overlapping break/reload vs shift, open shifts next to others, nested objectives, value/order rules without objectives, matrices bigger than the locations used");
